@@ -23,6 +23,7 @@
 
 // local sources
 #include "dbgroup/lock/common.hpp"
+#include "dbgroup/verif/hooks.hpp"
 
 namespace
 {
@@ -60,6 +61,7 @@ PessimisticLock::LockS()  //
   SpinWithBackoff(
       [](std::atomic_uint64_t *lock) -> bool {
         auto cur = lock->load(kRelaxed);
+        DBGROUP_VERIF_POINT(kAdmitS, lock);
         return (cur & kXLock) == kNoLocks
                && lock->compare_exchange_weak(cur, cur + kSLock, kAcquire, kRelaxed);
       },
@@ -74,6 +76,7 @@ PessimisticLock::LockX()  //
   SpinWithBackoff(
       [](std::atomic_uint64_t *lock) -> bool {
         auto cur = lock->load(kRelaxed);
+        DBGROUP_VERIF_POINT(kAdmitX, lock);
         return cur == kNoLocks
                && lock->compare_exchange_weak(cur, cur | kXLock, kAcquire, kRelaxed);
       },
@@ -88,6 +91,7 @@ PessimisticLock::LockSIX()  //
   SpinWithBackoff(
       [](std::atomic_uint64_t *lock) -> bool {
         auto cur = lock->load(kRelaxed);
+        DBGROUP_VERIF_POINT(kAdmitSIX, lock);
         return (cur & kXMask) == kNoLocks
                && lock->compare_exchange_weak(cur, cur | kSIXLock, kAcquire, kRelaxed);
       },
@@ -176,6 +180,7 @@ PessimisticLock::SIXGuard::UpgradeToX()  //
   SpinWithBackoff(
       [](std::atomic_uint64_t *lock) -> bool {
         auto cur = lock->load(kRelaxed);
+        DBGROUP_VERIF_POINT(kAdmitUpgrade, lock);
         return cur == kSIXLock && lock->compare_exchange_weak(cur, kXLock, kRelaxed, kRelaxed);
       },
       &(dest->lock_));
